@@ -30,7 +30,7 @@ func CurveNameFromParameters(p asn1struct.ECParameters) string {
 func primeFieldParamsMatch(a primeCurveParameters, b asn1struct.ECParameters) bool {
 	if bytes.Equal(a.A, b.Curve.A) && bytes.Equal(a.B, b.Curve.B) &&
 		(bytes.Equal(a.Seed, b.Curve.Seed.Bytes) || b.Curve.Seed.BitLength == 0) &&
-		a.Order.Cmp(b.Order) == 0 {
+		a.Order.Cmp(b.Order) == 0 && len(b.Base) > 0 {
 		switch b.Base[0] {
 		case 0x00:
 			return len(b.Base) == 1 && bytes.Equal(a.BaseX, []byte{0}) && bytes.Equal(a.BaseY, []byte{0})
